@@ -2332,6 +2332,11 @@ void WriteCode(void) {
         } else if (CodeOutput) {
             PCsUsed[ActPC] = True;
             if (DontPrint) {
+#ifdef ASL_VERIF
+                if (CodeLen > 0) {
+                    asl_verif_trace("reserve", NULL, CodeLen * Granularity());
+                }
+#endif
                 NewRecord(NewPC);
             } else {
                 WriteBytes();
